@@ -4,7 +4,7 @@ Recovery itself is zfec's algebra (undecided).  Decided, at the lowest
 strength: the conditions under which the wrapper in codec.py and its callers
 hand zfec what it needs (DESIGN.md section 5, C36)."""
 from sa.h import *
-from sa.rules.C01 import Sym, bind_call_args, codec_share_size, dominated_by, nf, node_of, the_call
+from sa.rules.C01 import Sym, bind_call_args, codec_share_size, dominated_by, nf, node_of, subst_names, the_call
 
 EXPLANATION = (
     "Decided (wrapper conditions only): (1) zfec.Encoder and zfec.Decoder are built with (required_shares, max_shares) in "
@@ -15,8 +15,13 @@ EXPLANATION = (
     "wanted ids through and returns the ids it used (default: all max_shares ids); (5) the callers (immutable "
     "downloader, mutable retrieve) build the block list and the share-number list pairwise in one loop and truncate "
     "them identically; the callers of encode (immutable encoder, mutable publish) cut a segment into exactly k pieces "
-    "of the codec's block size, padded to that size.  Undecided: that any k blocks determine the segment (zfec).")
-TECHNIQUE = "static analysis: symbolic normal forms of wrapper arguments, CFG gate rules for the preconditions, paired-append analysis"
+    "of the codec's block size, padded to that size; (6) the codec objects are shared between segments and encode/decode "
+    "give up the reactor turn while zfec runs in the CPU thread pool, so calls overlap: what one call hands to zfec (followed "
+    "through helper methods, closures, functools.partial and the thread-pool runners) depends on no instance / class / module "
+    "state that encode/decode or anything they run writes and that is read back after the turn was given up (in the thread "
+    "pool or after an await); results are returned from the call's own frame (3, 4).  Undecided: that any k blocks determine the segment (zfec).")
+TECHNIQUE = ("static analysis: symbolic normal forms of wrapper arguments, CFG gate rules for the preconditions, paired-append "
+             "analysis, inter-procedural def-use cone of the zfec arguments against per-call writes to shared state")
 
 ENC = "codec:CRSEncoder"
 DEC = "codec:CRSDecoder"
@@ -106,13 +111,39 @@ def _inline(sym, node, e):
     return v
 
 
+def frame_names(f):
+    """Names that live in the frame of one call of f (its own and its enclosing functions' parameters and locals);
+    anything else - self, module globals, class objects - outlives the call and is shared between overlapping calls."""
+    out = set()
+    while f is not None:
+        glob = {nm for x in func_own_nodes(f) if isinstance(x, ast.Global) for nm in x.names}
+        own = set(f.params)
+        for x in func_own_nodes(f, into_lambda=True):
+            if isinstance(x, ast.Name) and isinstance(x.ctx, (ast.Store, ast.Del)):
+                own.add(x.id)
+            elif isinstance(x, (ast.FunctionDef, ast.AsyncFunctionDef, ast.ClassDef)):
+                own.add(x.name)
+            elif isinstance(x, ast.Lambda):
+                own.update(a.arg for a in x.args.args)
+            elif isinstance(x, ast.ExceptHandler) and x.name:
+                own.add(x.name)
+        out |= (own - glob) - {"self"}
+        f = f.parent
+    return out
+
+
+def shared_path(f, p, frame=None):
+    return bool(p) and p.split(".")[0] not in (frame if frame is not None else frame_names(f))
+
+
 def _cone(fn, exprs):
-    """(instance attribute paths, bare names) the values of exprs may depend on inside fn."""
+    """(paths of state shared between calls, bare names) that the values of exprs may depend on inside fn."""
     defs = def_exprs(fn)
     deps = set()
     for e in exprs:
         deps |= depends_on(fn, e, defs=defs)
-    return {p for p in deps if p.startswith("self.")}, {p for p in deps if "." not in p}
+    frame = frame_names(fn)
+    return {p for p in deps if p != "self" and shared_path(fn, p, frame)}, {p for p in deps if "." not in p}
 
 
 def routes(idx, fn, targets, depth=0, seen=()):
@@ -163,8 +194,15 @@ def routes(idx, fn, targets, depth=0, seen=()):
     return out
 
 
+def entry_routes(idx, fn, method_path):
+    memo = idx.__dict__.setdefault("_c36_routes", {})
+    if (fn.qual, method_path) not in memo:
+        memo[(fn.qual, method_path)] = routes(idx, fn, {method_path})
+    return memo[(fn.qual, method_path)]
+
+
 def the_route(idx, fn, method_path):
-    rs = routes(idx, fn, {method_path})
+    rs = entry_routes(idx, fn, method_path)
     if len(rs) != 1:
         raise AnchorVanished("%s: expected exactly one call of %s (directly, through the thread pool, a helper method or a "
                              "closure), found %d" % (short(fn), method_path, len(rs)))
@@ -191,25 +229,29 @@ def per_call_funcs(idx, entry, extra=()):
 
 
 def attr_writes(f):
-    """(instance attribute path, AST node) for every write fn makes to the instance: rebinding, item stores, deletes,
-    in-place mutation of a container kept on the instance, setattr / __dict__."""
+    """(path, AST node) for every write f makes to state that outlives the call: rebinding of an instance / class / module
+    attribute or of a global, item stores, deletes, in-place mutation of a container kept there, setattr / __dict__."""
     out = []
+    frame = frame_names(f)
+
+    def base_path(b):
+        while isinstance(b, ast.Subscript):
+            b = b.value
+        p = attr_path(b)
+        return p if shared_path(f, p, frame) else None
     for x in func_own_nodes(f, into_lambda=True):
-        if isinstance(x, ast.Attribute) and isinstance(x.ctx, (ast.Store, ast.Del)):
-            p = attr_path(x)
-            if p and p.startswith("self."):
+        if isinstance(x, (ast.Attribute, ast.Name)) and isinstance(x.ctx, (ast.Store, ast.Del)):
+            p = base_path(x)
+            if p:
                 out.append((p, x))
         elif isinstance(x, ast.Subscript) and isinstance(x.ctx, (ast.Store, ast.Del)):
-            b = x.value
-            while isinstance(b, ast.Subscript):
-                b = b.value
-            p = attr_path(b)
-            if p and p.startswith("self."):
+            p = base_path(x.value)
+            if p:
                 out.append((p, x))
         elif isinstance(x, ast.Call):
             if isinstance(x.func, ast.Attribute) and x.func.attr in MUTATORS:
-                p = attr_path(x.func.value)
-                if p and p.startswith("self."):
+                p = base_path(x.func.value)
+                if p and p != "self":
                     out.append((p, x))
             elif call_tail(x) in ("setattr", "delattr") and x.args and isinstance(x.args[0], ast.Name) and x.args[0].id == "self":
                 nm = x.args[1] if len(x.args) > 1 else None
@@ -314,7 +356,7 @@ def run_decode(ctx, r):
         v = s.expand(t, t.ast.value)
         while isinstance(v, ast.Await):
             v = v.value
-        r.require(isinstance(v, ast.Call) and ast.dump(v) == ast.dump(c), fn, fn.loc(t.ast), "decode returns %s" % src(fn, t.ast.value))
+        r.require(isinstance(v, ast.Call) and ast.dump(v) == ast.dump(s.expand(n, c)), fn, fn.loc(t.ast), "decode returns %s" % src(fn, t.ast.value))
     gn = idx.func(DEC + ".get_needed_shares")
     rr = gn.cfg().find(is_return)
     r.require(len(rr) == 1 and nf(rr[0].ast.value) == "self.required_shares", gn, gn.loc(), "get_needed_shares does not return k")
@@ -381,7 +423,7 @@ def run_encode(ctx, r):
             e0 = s.expand(t, v.elts[0])
             while isinstance(e0, ast.Await):
                 e0 = e0.value
-            okr = isinstance(e0, ast.Call) and ast.dump(e0) == ast.dump(c)
+            okr = isinstance(e0, ast.Call) and ast.dump(e0) == ast.dump(s.expand(n, c))
         r.require(okr, fn, fn.loc(t.ast), "encode returns %s, not (blocks from zfec, the ids they belong to)" % src(fn, v))
 
 
@@ -532,13 +574,13 @@ def run_shared_state(ctx, r):
     for clsq, meth, target, what in ((DEC, "decode", "self.decoder.decode", "blocks / share numbers"),
                                      (ENC, "encode", "self.encoder.encode", "pieces / wanted share ids")):
         fn = idx.func("%s.%s" % (clsq, meth))
-        rs = routes(idx, fn, {target})
+        rs = entry_routes(idx, fn, target)
         if not rs:
             raise AnchorVanished("%s: call of %s not found" % (short(fn), target))
         funcs = per_call_funcs(idx, fn, [h for rt in rs for h in rt.hops])
         writes = [(p, f, x) for f in funcs for (p, x) in attr_writes(f)]
-        r.site(fn, rs[0].call, "per-call inputs of %s reach zfec in the call's own frame (%d function(s) run per call, %d instance "
-               "write(s), %d instance read(s) feeding zfec)" % (meth, len(funcs), len(writes), sum(len(rt.reads) for rt in rs)))
+        r.site(fn, rs[0].call, "per-call inputs of %s reach zfec in the call's own frame (%d function(s) run per call, %d write(s) to "
+               "shared state, %d read(s) of shared state feeding zfec)" % (meth, len(funcs), len(writes), sum(len(rt.reads) for rt in rs)))
         if not any(rt.deferred for rt in rs) and not any(_after_suspension(fn, node_of(fn, rt.call)) for rt in rs):
             continue        # zfec runs inside the caller's turn: calls cannot overlap
         reported = set()
@@ -548,14 +590,15 @@ def run_shared_state(ctx, r):
                 if not exposed:
                     continue
                 for (wp, wf, wx) in writes:
-                    if (wp == p or wp == ANY_ATTR) and (p, wf.qual) not in reported:
+                    if (wp == p or (wp == ANY_ATTR and p.startswith("self."))) and (p, wf.qual) not in reported:
                         reported.add((p, wf.qual))
-                        r.violation(fn, wf.loc(wx), "%s.%s hands its %s to zfec through the instance attribute %s: written by "
+                        r.violation(fn, wf.loc(wx), "%s.%s hands its %s to zfec through %s, which outlives the call: written by "
                                     "every call (%s) and read back in %s after the call has given up the reactor turn%s; the "
                                     "codec object is shared, so an overlapping %s() replaces it first and this call "
                                     "%ss the other call's data" % (
-                                        short(fn).split(".")[0], meth, what, p, src(wf, wx) if not isinstance(wx, ast.Attribute)
-                                        else "%s = ... in %s" % (p, short(wf)), short(rf),
+                                        short(fn).split(".")[0], meth, what, p,
+                                        ("%s in %s" % (src(wf, wx), short(wf))) if isinstance(wx, ast.Call)
+                                        else "store to %s in %s" % (src(wf, wx), short(wf)), short(rf),
                                         " (thread pool)" if rt.deferred else "", meth, meth))
 
 
@@ -575,6 +618,6 @@ def run(ctx: Context):
     with ctx.rule("C36.5", "R6/R9", "callers: block and share-number lists are built pairwise and cut alike; a segment is cut "
                   "into k pieces of the codec's block size", expected=5) as r:
         run_callers(ctx, r)
-    with ctx.rule("C36.6", "R9", "what one encode()/decode() call hands to zfec travels in that call's frame, never through "
+    with ctx.rule("C36.6", "R7", "what one encode()/decode() call hands to zfec travels in that call's frame, never through "
                   "instance attributes written per call and read back after the reactor turn was given up", expected=2) as r:
         run_shared_state(ctx, r)
